@@ -17,7 +17,7 @@
      closed_pushforward identification of vertices (any map on vertices) keeps a
                         closed mesh closed.
    The two renderers are tied to this mesh in Algo/DCModel.v (v2_quad_rule) and
-   Algo/DCOctree.v (v1_process_edge_rule, v1_traversal_partial).              *)
+   Algo/DCOctree.v, Algo/DCVisits.v (v1_process_edge_rule, v1_traversal).    *)
 From Coq Require Import List ZArith Lia Bool Permutation.
 Import ListNotations.
 Open Scope Z_scope.
